@@ -1,5 +1,6 @@
 import PharmpyModel.C03.Wire
 import PharmpyModel.C03.CodeRecord
+import PharmpyModel.C03.OptionRecord
 open Pharmpy Pharmpy.C03
 
 def bad : Sexp := .list [.atom "err", .atom "bad-op"]
@@ -94,6 +95,17 @@ def handle (req : Sexp) : Sexp :=
                .list ((nonStmtNodes c i).map Sexp.ofInt), invOld, Sexp.ofBool (recInvB c i n.length)]
       | none => .list [.atom "err", .atom "generator-fails", invOld]
     | _, _, _, _, _, _ => bad
+  | .list [.atom "appendoption", .list rules] =>
+    -- OptionRecord.append_option_node on children given by their rules: (ok i j sepRule (uids…)) | (err IndexError)
+    match rules.mapM (fun r => match r with | .atom a => some a | _ => none) with
+    | some rs =>
+      let cs : List Child := (rs.zip (List.range rs.length)).map (fun (r, i) => ⟨r, i⟩)
+      match appendOptionArgs cs, appendOptionNode cs ⟨"option", 1000000⟩ with
+      | some (i, j, sep), some out =>
+        .list [.atom "ok", Sexp.ofNat i, Sexp.ofNat j, .atom sep.rule, .list (out.map (fun c => Sexp.ofNat c.uid)),
+               Sexp.ofBool (commentsOk cs), Sexp.ofBool (commentsOk out)]
+      | _, _ => .list [.atom "err", .atom "IndexError"]
+    | none => bad
   | .list [.atom "getrecords", rs, name, pno] =>
     match recs? rs, decStr? name, pno.asInt? with
     | some rs, some name, some pno => recsS (getRecords rs (String.ofList name) pno)
